@@ -44,6 +44,7 @@ FamilySet == CASE Fam = "F1" -> {<<b>> : b \in F1Bodies}
                [] Fam = "HIDR" -> HiddenRight
                [] Fam = "OPTLR" -> OptLR
                [] Fam = "LRN" -> LRNullPrefix
+               [] Fam = "TRNL" -> TrimNl
                [] Fam = "DUPS" -> DupAndSuppress
                [] Fam = "SEPC" -> {<<b>> : b \in SepComposite}
                [] Fam = "LRF" -> {<<b>> : b \in LRFreeBodies}
@@ -131,7 +132,7 @@ SentenceIff ==
      LET o == ApiOutcome
          T == D!Ends(G, w)
      IN /\ (o.err = NoErr) <=> (Len(w) \in T[1][0])
-        /\ o.err = NoErr => o.node.s = B /\ o.node.e = B + Len(w)
+        /\ (o.err = NoErr /\ D!SpanDomain(G)) => o.node.s = B /\ o.node.e = B + Len(w)
 
 \* ---- C06 ------------------------------------------------------------------
 \* the reported position never exceeds the furthest position at which a terminal or End was
